@@ -1,6 +1,9 @@
 package schedulerplugin
 
-import "tkestack.io/galaxy/pkg/ipam/floatingip"
+import (
+	galaxylister "tkestack.io/galaxy/pkg/ipam/client/listers/galaxy/v1alpha1"
+	"tkestack.io/galaxy/pkg/ipam/floatingip"
+)
 
 // VerifPoolWorld lets the harness of the pool API (package api) run the API's pre-allocation against the plugin world:
 // the same IPAM (decorated with interference windows), the plugin's pool lock, and a Filter of a pod sharing the pool as
@@ -70,3 +73,27 @@ func (v *VerifPoolWorld) StoredPoolSize() int {
 
 // DeletePoolObject removes the Pool object (the pool is then a named pool without size).
 func (v *VerifPoolWorld) DeletePoolObject() { delete(v.w.pools, "p1"); v.w.syncListers() }
+
+// PoolLister: the informer cache of Pool objects (what the plugin's listers see; it follows the store only when
+// SyncListers is called).
+func (v *VerifPoolWorld) PoolLister() galaxylister.PoolLister { return &vpPoolLister{w: v.w} }
+
+// SetStoredPoolSize writes the Pool object in the store without letting the informer cache catch up.
+func (v *VerifPoolWorld) SetStoredPoolSize(size int) { v.w.setPool("p1", size) }
+
+// SetStoredPool writes size and pre-allocation flag of the Pool object in the store (the cache does not catch up).
+func (v *VerifPoolWorld) SetStoredPool(size int, pre bool) {
+	v.w.setPool("p1", size)
+	v.w.pools["p1"].PreAllocateIP = pre
+}
+
+// StoredPoolPreAllocate: the pre-allocation flag of the stored Pool object.
+func (v *VerifPoolWorld) StoredPoolPreAllocate() bool {
+	if p, ok := v.w.pools["p1"]; ok {
+		return p.PreAllocateIP
+	}
+	return false
+}
+
+// SyncListers lets the informer caches catch up with the store.
+func (v *VerifPoolWorld) SyncListers() { v.w.syncListers() }
